@@ -284,6 +284,11 @@ def main(argv):
     ctx = engine.Ctx(prop, crates, tier)
     R = roles_mod.Roles(ctx)
     fn(ctx, R)
+    if tier == "thorough" and not facts_dir and not replay:
+        from . import thorough
+        thorough.second_config(ctx, prop, fn, need_ws)
+        thorough.witnesses(ctx, prop)
+        thorough.selftest(ctx, prop)
     if replay:
         with open(replay) as f:
             want = json.load(f)
